@@ -682,7 +682,8 @@ def diff_text(target: str, a: str, b: str, names: typing.Set[str]) -> typing.Lis
     ops = [op for op in difflib.SequenceMatcher(a=la, b=lb, autojunk=False).get_opcodes() if op[0] != "equal"]
     removed = collections.Counter(l for _, i1, i2, _, _ in ops for l in la[i1:i2])
     added = collections.Counter(l for _, _, _, j1, j2 in ops for l in lb[j1:j2])
-    moved = {l for l in (removed & added) if l.strip()}  # the same line left one place and appeared at another
+    # the same line left one place and appeared at another (bare punctuation such as "{" / "}" does not count)
+    moved = {l for l in (removed & added) if len(re.findall(r"[A-Za-z0-9]", l)) >= 3}
     for l in sorted(moved, key=la.index):
         add(moved_shape(l, names), f"{l!r} is at line {la.index(l) + 1} in A and at line {lb.index(l) + 1} in B")
     for tag, i1, i2, j1, j2 in ops:
